@@ -108,6 +108,13 @@ class Column(object):
 
         return self._default
 
+    def from_sort_key(self, key, reverse=False):
+        """Returns the column value that a reader's ``sort_key()`` (of a
+        reversed reader if ``reverse`` is True) was made from.
+        """
+
+        return key
+
     def stores_lists(self):
         """Returns True if the column stores a list of values for each document
         instead of a single value.
@@ -604,6 +611,11 @@ class NumericColumn(FixedBytesColumn):
             v = 0 - v
         return v
 
+    def from_sort_key(self, key, reverse=False):
+        if reverse:
+            key = 0 - key
+        return key
+
     class Writer(FixedBytesColumn.Writer):
         def __init__(self, dbfile, typecode, default):
             self._dbfile = dbfile
@@ -685,6 +697,9 @@ class BitColumn(Column):
 
     def default_value(self, reverse=False):
         return self._default ^ reverse
+
+    def from_sort_key(self, key, reverse=False):
+        return bool(key) ^ reverse
 
     class Writer(ColumnWriter):
         def __init__(self, dbfile, compressat):
